@@ -52,6 +52,7 @@ pub fn shards(tier: &str) -> Vec<String> {
         }
         v.push(format!("{k}:reorder:t1"));
     }
+    v.push("bdd:import_cross:t1".into());
     for op in ["union", "change", "subset1", "not", "ite", "and", "import_ascii"] {
         v.push(format!("zbdd:{op}:t1"));
     }
@@ -60,7 +61,7 @@ pub fn shards(tier: &str) -> Vec<String> {
     }
     v.push("zbdd:reorder:t1".into());
     v.push("zbdd:add_vars:t1".into());
-    for op in ["add", "mul", "terminals_add", "terminals_constant"] {
+    for op in ["add", "mul", "terminals_add", "terminals_constant", "terminals_var"] {
         v.push(format!("mtbdd:{op}:t1"));
     }
     let _ = tier;
@@ -400,6 +401,7 @@ pub fn run(ctx: &mut Ctx) {
         (k, "reorder") => reorder_script(ctx, k),
         ("zbdd", "add_vars") => zbdd_add_vars(ctx),
         (k, "import_ascii") | (k, "import_bin") => import_script(ctx, k, p[1] == "import_bin"),
+        ("bdd", "import_cross") => ctx.group("dddmp import binary, complement-edge dump into a plain BDD manager", |ctx| import_x_bdd(ctx, true)),
         ("bdd", _) => ctx.group(&format!("sweep {op}"), |ctx| sweep::<Bdd>(ctx, &op, threads)),
         ("bcdd", _) => ctx.group(&format!("sweep {op}"), |ctx| sweep::<Bcdd>(ctx, &op, threads)),
         ("zbdd", _) => ctx.group(&format!("sweep {op}"), |ctx| sweep::<Zbdd>(ctx, &op, threads)),
@@ -491,19 +493,21 @@ fn import_script(ctx: &mut Ctx, kind: &str, binary: bool) {
 }
 
 macro_rules! import_impl {
-    ($fname:ident, $k:ty, $f:ty) => {
+    ($fname:ident, $k:ty, $f:ty, $srck:ty) => {
         fn $fname(ctx: &mut Ctx, binary: bool) {
             use oxidd_dump::dddmp;
             type K = $k;
             // export from an ample manager
-            let src = dd::fresh::<K>(N, &[0, 1, 2, 3], 4096, 64, 1);
-            let fs: Vec<$f> = operand_tabs().iter().map(|&t| K::build(&src, t).unwrap()).collect();
+            // (the exporting manager may be of another kind: a complement-edge dump read into a plain BDD)
+            let src = dd::fresh::<$srck>(N, &[0, 1, 2, 3], 4096, 64, 1);
+            let fs: Vec<_> = operand_tabs().iter().map(|&t| <$srck as BoolKind>::build(&src, t).unwrap()).collect();
+            let cross = <$srck as BoolKind>::NAME != K::NAME;
             let mut file: Vec<u8> = vec![];
             let settings = if binary { dddmp::ExportSettings::default().binary() } else { dddmp::ExportSettings::default().ascii() };
             src.with_manager_shared(|m| {
                 settings.export(&mut file, m, fs.iter()).expect("harness: export failed");
             });
-            let need = src.with_manager_shared(|m| m.num_inner_nodes());
+            let need = src.with_manager_shared(|m| m.num_inner_nodes()) * if cross { 2 } else { 1 } + if cross { 4 } else { 0 };
             let init = if K::NAME == "zbdd" { N as usize } else { 0 };
             for c in (if K::NAME == "zbdd" { N as usize } else { 0 })..=(need + 3) {
                 ctx.count("evaluations", 1);
@@ -549,23 +553,27 @@ macro_rules! import_impl {
                 }
                 for (class, msg) in bad {
                     ctx.viol(
-                        attrs(&[("kind", K::NAME), ("op", if binary { "import_bin" } else { "import_ascii" }), ("class", &class)]),
+                        attrs(&[("kind", K::NAME), ("op", if cross { "import_cross" } else if binary { "import_bin" } else { "import_ascii" }), ("class", &class)]),
                         json!({"kind": K::NAME, "op": "dddmp_import", "binary": binary, "node_capacity": c, "roots": operand_tabs(), "file": String::from_utf8_lossy(&file)}),
-                        &format!("{} dddmp import ({}) at node capacity {c}: {msg}", K::NAME, if binary { "binary" } else { "ascii" }),
+                        &format!("{} dddmp import ({}{}) at node capacity {c}: {msg}", K::NAME, if binary { "binary" } else { "ascii" }, if cross { ", file written by a complement-edge manager" } else { "" }),
                     );
                 }
             }
         }
     };
 }
-import_impl!(import_k_bdd, Bdd, oxidd::bdd::BDDFunction);
-import_impl!(import_k_bcdd, Bcdd, oxidd::bcdd::BCDDFunction);
-import_impl!(import_k_zbdd, Zbdd, oxidd::zbdd::ZBDDFunction);
+import_impl!(import_k_bdd, Bdd, oxidd::bdd::BDDFunction, Bdd);
+import_impl!(import_k_bcdd, Bcdd, oxidd::bcdd::BCDDFunction, Bcdd);
+import_impl!(import_k_zbdd, Zbdd, oxidd::zbdd::ZBDDFunction, Zbdd);
+import_impl!(import_x_bdd, Bdd, oxidd::bdd::BDDFunction, Bcdd);
 
 /// MTBDD: inner-node sweep for add/mul and terminal-store sweep
 fn mtbdd_script(ctx: &mut Ctx, op: &str) {
     type F = MTBDDFunction<I64>;
     let op = op.to_string();
+    if op == "terminals_var" {
+        return mtbdd_var_script(ctx);
+    }
     ctx.group(&format!("mtbdd {op}"), |ctx| {
         let ta: Vec<i64> = vec![0, 1, 2, 3, 4, 5, 6, 7];
         let tb: Vec<i64> = vec![7, 5, 3, 1, 0, 2, 4, 6];
@@ -652,6 +660,86 @@ fn mtbdd_script(ctx: &mut Ctx, op: &str) {
                     json!({"kind": "mtbdd", "op": op, "node_capacity": nodes, "terminal_capacity": terms, "a": ta, "b": tb}),
                     &format!("mtbdd {op} with node capacity {nodes}, terminal capacity {terms}: {msg}"),
                 );
+            }
+        }
+    });
+}
+
+/// `var()` needs the terminals 1 and 0: every terminal-table capacity 0..=5 x every subset of the
+/// constants {0, 1, 7, 9} alive beforehand; whether it fails or not, afterwards the table holds exactly
+/// the terminals that are referenced, and nothing at all once everything is dropped.
+fn mtbdd_var_script(ctx: &mut Ctx) {
+    type F = MTBDDFunction<I64>;
+    ctx.group("mtbdd var on a nearly full terminal table", |ctx| {
+        let consts = [0i64, 1, 7, 9];
+        for cap in 0..=5usize {
+            for mask in 0..16u32 {
+                ctx.count("evaluations", 1);
+                crate::proto::throttle_threads();
+                let mref = oxidd::mtbdd::new_manager::<I64>(64, cap, 64, 1);
+                mref.with_manager_exclusive(|m| {
+                    m.add_vars(2);
+                });
+                let mut live: Vec<F> = vec![];
+                let mut values: Vec<i64> = vec![];
+                for (i, &c) in consts.iter().enumerate() {
+                    if mask & (1 << i) != 0 {
+                        if let Ok(f) = mref.with_manager_shared(|m| F::constant(m, I64::Num(c))) {
+                            live.push(f);
+                            values.push(c);
+                        }
+                    }
+                }
+                let r = mref.with_manager_shared(|m| F::var(m, 1));
+                let mut bad: Vec<(String, String)> = vec![];
+                let mut expect_terms: std::collections::BTreeSet<i64> = values.iter().copied().collect();
+                match &r {
+                    Ok(f) => {
+                        ctx.outcome("var_ok");
+                        if HMtbdd::table(f).as_ref() != Ok(&vec![0, 0, 1, 1]) {
+                            bad.push(("wrong_result".into(), format!("var(1) reads {:?}", HMtbdd::table(f))));
+                        }
+                        expect_terms.insert(0);
+                        expect_terms.insert(1);
+                    }
+                    Err(_) => {
+                        ctx.outcome("var_oom");
+                        ctx.count("nontrivial", 1);
+                    }
+                }
+                let (nt, ni) = mref.with_manager_shared(|m| {
+                    m.gc();
+                    (m.num_terminals(), m.num_inner_nodes())
+                });
+                if nt != expect_terms.len() || ni != r.is_ok() as usize {
+                    bad.push(("leak".into(), format!("after var(1) {} and gc: {nt} terminals and {ni} inner nodes are stored, referenced are the terminals {expect_terms:?} and {} inner node(s)", if r.is_ok() { "succeeded" } else { "failed with OutOfMemory" }, r.is_ok() as usize)));
+                }
+                {
+                    let mut refs: Vec<&F> = live.iter().collect();
+                    if let Ok(f) = &r {
+                        refs.push(f);
+                    }
+                    let info = HMtbdd::audit(&mref, &refs, true);
+                    for e in info.errors.iter().take(2) {
+                        bad.push(("audit".into(), e.clone()));
+                    }
+                }
+                drop(r);
+                drop(live);
+                let (leftt, left) = mref.with_manager_shared(|m| {
+                    m.gc();
+                    (m.num_terminals(), m.num_inner_nodes())
+                });
+                if left != 0 || leftt != 0 {
+                    bad.push(("leak".into(), format!("{left} inner nodes and {leftt} terminals remain after dropping everything and gc")));
+                }
+                for (class, msg) in bad {
+                    ctx.viol(
+                        attrs(&[("kind", "mtbdd"), ("op", "terminals_var"), ("class", &class)]),
+                        json!({"kind": "mtbdd", "op": "var", "terminal_capacity": cap, "constants_alive": values}),
+                        &format!("mtbdd var(1) with terminal capacity {cap} and the constants {values:?} alive: {msg}"),
+                    );
+                }
             }
         }
     });
